@@ -63,6 +63,11 @@ BUILT = {
    text="Accepted texts (generated with comments in every statement position and random line layout so both same-line flags vary, every ordered pair of 35 statement shapes in two layouts, the shipped examples) are formatted twice per mode and must be byte-identical, with exactly one trailing newline in normal mode; batches are formatted in order, in a permuted order interleaved with parsing unrelated inputs (token interning), and in a child process with another map seed (map literals with 9-16 pairs included). Non-idempotence needs particular neighbouring nodes (found: comment at the end of one block followed by another block), which the adjacency and comment generators target.",
    note="Inputs whose first formatting does not re-parse are C02's subject and skipped; the class of known finding K-C02-2 is excluded by construction (its first formatting re-parses to a different tree).",
    ref="DESIGN.md section 3, C03"),
+ "C01": dict(level="exploration",
+   technique="differential testing against an independent reference evaluator: rapid-generated typed programs (own syntax tree and printer), oracle = printed text, final value (type, structure, float bits) and error/no error equal those of harness/ref",
+   text="Programs are drawn from the harness's typed grammar of the core language (functions, lambdas, closures, recursion with a fuel parameter, variadics, if/else, every for form with break/continue/return, = and :=, ++/--, indexing with negative indices, slicing, every operator, && and ||, error()/catch(), containers on both sides of the small/large thresholds, boundary integers) and printed by the harness's own printer, so the intended tree is known without grol's parser. grol evaluates the text in a fresh default state; the reference evaluator (harness/ref: own scoping model with references and recursion parenting, Go int64 arithmetic, own value order and printed form) evaluates the tree. Interactions (precedence x associativity x unary operators, scoping x recursion x closures, slicing x negative indices x size, control flow x loops x return) are what the generator multiplies; each case is classified by the interactions it exercised.",
+   note="As strong as the reference is faithful: it was written from the evaluator's documentation and code reading and shares no code with /repo. Error message wording is not compared. Programs touching a listed known finding (K-C06-1, K-C06-2, K-C05-1..3 by construction) are excluded and counted.",
+   ref="DESIGN.md section 3, C01"),
  "C02": dict(level="exploration",
    technique="grammar-based generation from harness-owned trees with an independent printer + exhaustive operator-position x construct pairs and statement adjacencies + native fuzzing; oracle = round trip on a canonical structural dump and equality with the intended tree",
    text="Program texts are printed from trees the harness owns (own precedence table, random layout, redundant parentheses, comments in statement positions, all literal forms), so the intended tree is known: the parser must build exactly it, and format(parse(t)) in normal and compact mode must be accepted and parse to the same canonical dump (comments dropped for compact); Function.Inspect output must parse back to the function literal. The quadratic family every-operand-position x every-construct (62x56) and every ordered pair of 35 statement shapes (top level and in a block) are enumerated completely; rapid generates nested programs; thorough adds coverage-guided fuzzing of examples/tests. Two classes are excluded by construction and reported as known findings (pinned by the repository's own tests).",
